@@ -139,7 +139,7 @@ def main(tier, seed):
     try: bounded(rep, tier)
     except Exception: rep.error('C19 bounded: ' + traceback.format_exc()[-2500:])
     files = ['beartype/door/_cls/doorsuper.py', 'beartype/door/_cls/doormeta.py', 'beartype/door/_cls/pep/doorpep484604.py', 'beartype/door/_cls/pep/doorpep586.py', 'beartype/door/_cls/pep/doorpep593.py', 'beartype/door/_cls/pep/pep484585/doorpep484585tuple.py']
-    rep.functions = ['ClassTypeHint._is_subhint_branch', 'TupleFixedTypeHint._is_subhint_branch', 'LiteralTypeHint._is_subhint', 'AnnotatedTypeHint._is_subhint_branch (soundness steps, mode F)', 'TypeHint dunders + metaclass (structural)'] + [f'{p}@{report.src_hash(p)}' for p in files]
+    rep.functions = ['ClassTypeHint._is_subhint_branch', 'TupleFixedTypeHint._is_subhint_branch', 'LiteralTypeHint._is_subhint (vs Literal: any number of members)', 'UnionTypeHint._is_subhint (any number of branches)', 'AnnotatedTypeHint._is_subhint_branch (soundness steps, mode F)', 'TypeHint dunders + metaclass (structural)'] + [f'{p}@{report.src_hash(p)}' for p in files]
     from pyvc import model as M
     rep.trusted = ['pyvc', 'z3'] + M.ASSUMED_SEMANTICS
     rep.assumptions = ['soundness STEP only: children are abstract (child.is_subhint(child\') implies inclusion of meanings); the induction over hint depth and the remaining branch algorithms (containers, callables, unions) are covered by the bounded palette only',
